@@ -5,9 +5,17 @@ props=[json.loads(l) for l in open('/verif/properties.jsonl')]
 TECH="contract-based deductive verification: WP-style VC generation over go/ssa + SMT (z3, z3-new, cvc5)"
 NOTE_COMMON=" Trusted: go/ssa front end, gocv's SSA->SMT translation, the SMT solvers, summaries of external library functions, the assumptions listed in the evidence file; the step from per-function contracts to whole-program behaviour is an unchecked induction over the evaluation."
 claimed={
-'C10':("Proof: every obligation generated from the go/ssa of the 10 Int operator built-ins, their argument checker and the prototype-chain walkers (postconditions taken from the property statement over mathematical integers with explicit 64-bit wrap-around, loop invariants against a recursive spec of the chain walk, panic-freedom, frame) is discharged for all int64 operand pairs and all prototype chains; Int#** is a known finding (math.Pow).","DESIGN.md section 4 C10"),
-'C11':("Proof: arrIndex/strIndex against the indexing rule, fixRange against CPython's slice-index adjustment (from the statement) for every length and every int64 start/stop/step, valRange's loop (with wrap-around modelled) never hands a position outside [0,size) to the element accessor, strRange/arrRange/findElemIn* panic-free; all obligations discharged unboundedly.","DESIGN.md section 4 C11"),
-'C05':("Proof: FindPropAlongProtos and FindPropOwner return the value/owner at the first prototype that owns the name, for every chain depth and shadowing pattern (existential loop invariant over anc(o,k)); findProp, findElemInObj and the 15 TraceProtoOf* walkers against recursive specs.","DESIGN.md section 4 C05"),
+'C01':("Proof for the functions in the baseline (reported in the evidence: functions swept / fully discharged / undecided): panic-freedom (index, slice, nil dereference, nil map, failed type assertion, division by zero, nil call, explicit panic, panicking interface implementations) and well-formedness (type invariants of every allocated object, value results, container element writes) of every function of object, evaluator and props, under default preconditions by type, plus the written contracts. Functions with an undischarged obligation are listed as undecided and are not claimed.","DESIGN.md section 4 C01 + Status as built"),
+'C03':("Proof: a call evaluates the body in a fresh copy of the closure's scope whose enclosing scope is the definition scope and which is neither the caller's nor the closure's stored scope; assignment writes the innermost store only (scope discipline FRAME.scope on every function held to the EC frame); lookup goes innermost-first; receiver is prepended to method arguments; anonymous chains read \\1; paddedArgs pads with nil.","DESIGN.md section 4 C03"),
+'C04':("Proof of the per-element rule of each property-call middleware (lonely, thoughtful, nothing, findProp, squash/keep list, reduce) as call-shape postconditions and loop step contracts over the ghost call log.","DESIGN.md section 4 C04"),
+'C05':("Proof: FindPropAlongProtos/FindPropOwner return the value/owner at the first prototype that owns the name for every chain depth (existential loop invariant over anc(o,k)); evalProp tries the property, then the first _missing, then NoPropErr; evalCall invokes built-ins/functions with the receiver first and returns anything else as is; 15 TraceProtoOf* walkers against recursive specs.","DESIGN.md section 4 C05"),
+'C06':("Proof: FRAME sweep over every function of object, evaluator and props: every store, append (with the in-place branch modelled), map update, copy, delete, sort and every callee effect either targets memory allocated in the same activation, or lies in the declared EC frame (variables, iterator state, stack traces, symbol tables), or is named by the function's own assigns clause; frames of callees are proved, not assumed (refinement rounds).","DESIGN.md section 4 C06"),
+'C07':("Proof (for the constructs under contract): the first error obtained from an evaluating call is returned unchanged and no further evaluating call is made - statements, infix, prefix, range bounds, if, jump statements, assignment, property-call chain middlewares; =@ and range-bound defects repaired.","DESIGN.md section 4 C07"),
+'C10':("Proof: every obligation generated from the go/ssa of the 10 Int operator built-ins, their argument checker and the prototype-chain walkers (postconditions from the property statement over mathematical integers with explicit 64-bit wrap-around) is discharged for all int64 operand pairs and all prototype chains; Int#** is a known finding (math.Pow).","DESIGN.md section 4 C10"),
+'C11':("Proof: arrIndex/strIndex against the indexing rule, fixRange against CPython's slice-index adjustment for every length and every int64 start/stop/step, valRange's loop (wrap-around modelled) never hands a position outside [0,size) to the element accessor, strRange/arrRange/findElemIn* panic-free.","DESIGN.md section 4 C11"),
+'C12':("Proof: isTruthy/canShortCut call the receiver's B exactly once (bool fast path aside); if-expressions evaluate the condition once and exactly one branch; && / || evaluate the right operand at most once and only when needed and return the deciding operand; guarded jumps do not evaluate their value on a false guard; closed forms of the ten per-type B built-ins and of `!`.","DESIGN.md section 4 C12"),
+'C15':("Proof: _evalStmts evaluates the statements in order and appends a DeferObj exactly when a statement's value is one (loop step contract), evalDefer evaluates the collected expressions in order, each once, stopping at the first error, evalStmts runs the defers after the body on every path and only a failing defer replaces the outcome; a plain/guarded defer does not evaluate its expression.","DESIGN.md section 4 C15"),
+'C20':("Proof of lock discipline: every read of symHashTable/strTable holds the RWMutex, every write holds it in write mode, acquisitions are not nested, the lock state at return equals that at entry, for every path of every function that touches the tables; plus the enumeration obligation that every package-level container written after initialisation is declared guarded.","DESIGN.md section 4 C20"),
 }
 extra_notes={}
 checks=[]
@@ -16,6 +24,14 @@ for pid,(text,ref) in sorted(claimed.items()):
       "evidence_file":"/verif/evidence/%s.json"%pid,"replay_cmd_template":"./check --replay {path}","engine":"gocv",
       "level_claimed":{"category":"proof","text":text,"design_ref":ref},"level_note":(extra_notes.get(pid,"")+NOTE_COMMON).strip(),"technique":TECH})
 na_reasons={
+'C08':"not claimed: the ORDER obligations exist for infix/prefix/range/if/statements (they are part of C07/C12/C15's contracts) but array/object/map literals, argument lists, keyword arguments and embedded strings - where the known order defects are - are not under contract yet",
+'C09':"not claimed: NewInheritedMap/evalObj/evalMap first-wins step contracts not written yet (only their frames, under C06)",
+'C13':"not claimed: Either/try built-ins not under contract yet",
+'C14':"not claimed: iterNew/evalIterCall/recur contracts not written yet (iterOf/Next call shapes are under C04)",
+'C16':"not claimed: lexer buffer contracts (third_party/simplexer) not written yet; the layout/comment part is a statement about regular expressions and LALR tables",
+'C17':"literal denotation is computed by external strconv/math inside goyacc-generated action code and the name clause is a statement about an ordered regex table; no function contract within reach decides it (DESIGN.md section 5)",
+'C18':"not claimed: ==/<=> closed forms and law lemmas not written yet (Int#<=> value is proved under C10)",
+'C19':"not claimed as a whole: the FRAME sweep (C06) and the scope discipline (C03) cover writes to memory reachable from package-level variables only through the EC frame; the `_` stack-trace leak and runTest's scope are known defects not yet under contract",
 'C02':"precedence/associativity is encoded in goyacc's generated LALR tables; no repository function has a contract that states grouping, and proving an LALR automaton against the grammar is outside WP+SMT (DESIGN.md section 5)",
 }
 hooks=subprocess.run("git -C /repo log --format=%h --grep='^verif:'",shell=True,capture_output=True,text=True).stdout.split()
